@@ -185,7 +185,7 @@ package algo
 //@ spec func occu(text *util.Chars, pattern []rune, cs bool, nz bool, s int) bool = forall(k, 0, len(pattern), foldu(cs, nz, at(text, s + k)) == pattern[k])
 
 //@ func PrefixMatch
-//@ property C02 C01
+//@ property C02 C01 C05
 //@ requires text != nil && validChars(text) && validRunes(pattern) && len(pattern) <= 2147483648
 //@ ensures r1 == nil
 //@ ensures len(pattern) == 0 ==> r0.Start == 0 && r0.End == 0
@@ -199,7 +199,7 @@ package algo
 //@ use occ_g(text, pattern, caseSensitive, normalize, ptrim(text, pattern), len(pattern))
 
 //@ func SuffixMatch
-//@ property C02 C01
+//@ property C02 C01 C05
 //@ requires text != nil && validChars(text) && validRunes(pattern) && len(pattern) <= 2147483648
 //@ ensures r1 == nil
 //@ ensures len(pattern) == 0 ==> r0.Start == clen(text) - trailws(text, clen(text)) && r0.End == r0.Start
@@ -242,7 +242,7 @@ package algo
 //@ spec func bokq(c *util.Chars, m int, ts int) bool = bok(c, m, ts)
 //@ opaque bokq
 //@ func exactMatchNaive
-//@ property C02 C01
+//@ property C02 C01 C05
 //@ reveal bokq
 //@ requires text != nil && validChars(text) && validRunes(pattern) && len(pattern) <= 2147483648
 //@ ensures r1 == nil
@@ -349,6 +349,8 @@ package algo
 //@ property C02 C03 C05 C01
 //@ assert @"bonus := bonusMatrix[prevClass][class]" char == foldc(caseSensitive, normalize, at(input, minIdx + off)) && T[off] == char
 //@ requires !DEBUG
+// (two products stated once, so that the slice bounds of the row views below are linear facts)
+//@ assert @"inGap := false" row >= width && row + width <= width * M
 //@ cut @"pos := posArray(withPos, M)" phase 4 (back-trace)
 //@ track init int16 int32
 //@ requires input != nil && validChars(input) && validRunes(pattern) && len(pattern) <= 1000
@@ -404,13 +406,13 @@ package algo
 
 // The exported exact matchers are exactMatchNaive without / with the word-boundary conditions.
 //@ func ExactMatchNaive
-//@ property C02 C01
+//@ property C02 C01 C05
 //@ requires text != nil && validChars(text) && validRunes(pattern) && len(pattern) <= 2147483648
 //@ ensures r1 == nil && (r0.Start < 0 ==> r0.Start == -1 && r0.End == -1)
 //@ ensures len(pattern) > 0 && r0.Start >= 0 ==> r0.End == r0.Start + len(pattern) && r0.End <= clen(text) && forall(k, 0, len(pattern), hitp(text, r0.Start + k, pattern, k, caseSensitive, normalize))
 //@ ensures len(pattern) > 0 && r0.Start < 0 && asciiFuzzyIndex_r0(text, pattern, caseSensitive) >= 0 ==> forall(s, 0, clen(text) - len(pattern) + 1, !occp(text, pattern, caseSensitive, normalize, forward, s, len(pattern)))
 //@ func ExactMatchBoundary
-//@ property C02 C01
+//@ property C02 C01 C05
 //@ requires text != nil && validChars(text) && validRunes(pattern) && len(pattern) <= 2147483648
 //@ ensures r1 == nil && (r0.Start < 0 ==> r0.Start == -1 && r0.End == -1)
 //@ ensures len(pattern) > 0 && r0.Start >= 0 ==> r0.End == r0.Start + len(pattern) && r0.End <= clen(text) && forall(k, 0, len(pattern), hitp(text, r0.Start + k, pattern, k, caseSensitive, normalize))
@@ -421,7 +423,7 @@ package algo
 // characters are equal is decided through string conversion and strings.ToLower in the non-normalising
 // branch: library semantics, not specified here.)
 //@ func EqualMatch
-//@ property C02 C01
+//@ property C02 C01 C05
 //@ requires text != nil && validChars(text) && validRunes(pattern)
 //@ ensures r1 == nil && (r0.Start < 0 ==> r0.Start == -1 && r0.End == -1)
 //@ ensures r0.Start >= 0 ==> len(pattern) > 0 && r0.End == r0.Start + len(pattern) && r0.End <= clen(text)
